@@ -60,6 +60,10 @@ def gen_cases(seed, tier):
         # interfaces prepared up front and simulated afterwards through the simulator object (a parameter sweep): each run integrates
         # ITS interface's equations, whichever interface was prepared last (seeded change S6_C04)
         elif rng.random() < 0.25: c["prepared_before_another"] = True
+        # counts in the thousands, and ONLY the absolute tolerance relaxed by the caller (atol = 1e-3, rtol left at its default): the result stays
+        # within that absolute tolerance (accumulated) of the exact solution  (seeded change S8_C04: a missing rtol was replaced by atol)
+        if fam == "birthdeath" and not c.get("reuse_interface") and not c.get("prepared_before_another") and rng.random() < 0.5:
+            c.update(k=U(500, 3000), g=U(0.3, 2), x0=U(0, 50), only_atol=1e-3, safe=False)
         cases.append(c)
     return cases
 
@@ -97,7 +101,7 @@ def impl_case(case):
         r_ = DeterministicSimulator().py_simulate(I, T)
         arr = np.asarray(r_.py_get_result()); s2i = M.get_species2index()
         return {"names": names, "rows": {s_: [float(v) for v in arr[:, s2i[s_]]] for s_ in names}, "time": [float(v) for v in T]}
-    res = py_simulate_model(T, Model=M, stochastic=False, return_dataframe=True, safe=bool(case.get("safe")))
+    res = py_simulate_model(T, Model=M, stochastic=False, return_dataframe=True, safe=bool(case.get("safe")), **({"atol": case["only_atol"]} if case.get("only_atol") else {}))
     return {"names": names, "rows": {s: [float(v) for v in res[s]] for s in names}, "time": [float(v) for v in res["time"]]}
 
 def _rate(spec, rx, x, t):
@@ -161,7 +165,7 @@ def oracle(case, r):
     for s in r["names"]:
         if s not in ref: continue
         for t, a, b in zip(T, r["rows"][s], ref[s]):
-            if math.isnan(a) or abs(a - b) > 2e-5 * (1 + abs(b)):
+            if math.isnan(a) or abs(a - b) > 2e-5 * (1 + abs(b)) + 100.0 * case.get("only_atol", 0.0):
                 return "trajectory (%s): %s(t=%g) = %r, the exact solution of dx/dt = S*rate(x,t) is %r" % (case["family"], s, t, a, b)
     return None
 
